@@ -260,10 +260,20 @@ class C12(Check):
         fn = sim.func("Simulator._initialise_integrator")
         q = "Simulator._initialise_integrator"
         lam = [c for c in ast.walk(fn) if isinstance(c, ast.Call) and norm(c.func) == "lambdify"]
-        lams = [n for n in ast.walk(fn) if isinstance(n, ast.Lambda)]
+        # the closure handed to the integrator: a lambda, or a nested def that only returns a call
+        closures: list[tuple[list[str], ast.AST]] = [([a.arg for a in n.args.args], n.body) for n in ast.walk(fn) if isinstance(n, ast.Lambda)]
+        for n in ast.walk(fn):
+            if isinstance(n, ast.FunctionDef) and n is not fn:
+                b_ = strip_docstring(n.body)
+                if len(b_) == 1 and isinstance(b_[0], ast.Return) and b_[0].value is not None:
+                    closures.append(([a.arg for a in n.args.args], b_[0].value))
+        closures = [c_ for c_ in closures if any(isinstance(c, ast.Call) for c in ast.walk(c_[1]))]
+        lams = [c_[1] for c_ in closures]
+        cl_params = closures[0][0] if closures else []
         if not lam or not lams:
             raise AnalysisError(f"{q}: lambdify / closure not found")
-        sig = lam[0].args[0]
+        ldefs = {k: v for k, v in single_defs(fn, anywhere=True).items() if not isinstance(v, (ast.Lambda,)) and not (isinstance(v, ast.Call) and norm(v.func) == "lambdify")}
+        sig = expand_locals(lam[0].args[0], ldefs)
         call = [c for c in ast.walk(lams[0]) if isinstance(c, ast.Call)][0]
         if not (isinstance(sig, ast.Tuple) and len(sig.elts) == 3 and len(call.args) == 3):
             self.violated("Y5", SIM, q, "argument-structure", lam[0], "lambdify signature and call do not both have the (time, variables, parameters) structure")
@@ -310,14 +320,29 @@ class C12(Check):
                 why.append(f"names come from `{nm}` but values from `{vm}` (different key sets / orders possible)")
             self.violated("Y5", SIM, q, "names-and-values-agree", call, "; ".join(why),
                           witness="Simulator(m, use_jacobian=True, integrator=partial(Scipy, method='BDF')).simulate(1) raises TypeError inside the Jacobian")
-        if norm(sig.elts[1]) == "self.model.get_variable_names()" and norm(call.args[1]) == lams[0].args.args[1].arg and norm(call.args[0]) == lams[0].args.args[0].arg:
+        if norm(sig.elts[1]) == "self.model.get_variable_names()" and len(cl_params) >= 2 and norm(call.args[1]) == cl_params[1] and norm(call.args[0]) == cl_params[0]:
             self.holds("Y5", SIM, q, "state-order", lam[0], "state vector symbols = get_variable_names(); (t, x) passed through")
         else:
             self.violated("Y5", SIM, q, "state-order", lam[0], "state symbols / positional pass-through of (t, x) do not match")
-        # Y6
+        # Y6: on every path on which the conversion raised, a warning is logged and the integrator is built with no Jacobian
         tr = [s for s in ast.walk(fn) if isinstance(s, ast.Try)]
-        ok = tr and any(isinstance(c, ast.Call) and norm(c.func) == "_LOGGER.warning" for h in tr[0].handlers for c in ast.walk(h)) and \
-            any(isinstance(s, ast.Assign) and norm(s) == "jac_fn = None" for s in strip_docstring(fn.body)[:2])
+        p6 = [st for st, _ in SymInterp().run_function(fn, Sym()).returns]
+        failed = [st for st in p6 if any(c.endswith(" raised") and p_ for c, p_ in st.conds)]
+
+        def built_without(st) -> bool:
+            sets = [e for e in st.events if e[0] == "set" and e[1] == "self.integrator"]
+            if not sets:
+                return False
+            try:
+                c_ = ast.parse(sets[-1][2], mode="eval").body
+            except SyntaxError:
+                return False
+            last = c_.args[-1] if isinstance(c_, ast.Call) and c_.args else None
+            kw_ = {k.arg: k.value for k in c_.keywords} if isinstance(c_, ast.Call) else {}
+            last = kw_.get("jacobian", last)
+            return isinstance(last, ast.Constant) and last.value is None
+
+        ok = bool(failed) and all(any(e[0] == "call" and e[1].startswith(("_LOGGER.warning(", "warnings.warn(")) for e in st.events) and built_without(st) for st in failed)
         in_try = tr and any(c is lam[0] for c in ast.walk(ast.Module(body=tr[0].body, type_ignores=[])))
         if ok and in_try:
             self.holds("Y6", SIM, q, "failure-warns-and-falls-back", tr[0], "conversion failures are logged as a warning and the integrator runs without a Jacobian")
